@@ -213,7 +213,20 @@ pub struct ViewportCase {
 
 pub fn viewport_case() -> BoxedStrategy<ViewportCase> {
     let c = || prop_oneof![2 => Just(-1.0f32), 2 => Just(1.0f32), 2 => Just(0.0f32), 6 => -1.0f32..1.0, 1 => -3.0f32..3.0];
-    (0u32..4096, 0u32..4096, 0u32..4096, 0u32..4096, c(), c(), -2.0f32..2.0).prop_map(|(l, t, w, h, x, y, z)| ViewportCase { rect: [l, t, l + w, t + h], ndc: xs([x, y, z]) }).boxed()
+    // a third of the rectangles are given with an axis reversed (end < start): the matrix then mirrors that axis, as the
+    // render checks' mirrored viewports rely on
+    (0u32..4096, 0u32..4096, 0u32..4096, 0u32..4096, c(), c(), -2.0f32..2.0, 0u8..9)
+        .prop_map(|(l, t, w, h, x, y, z, fl)| {
+            let (mut a, mut b) = ([l, t], [l + w, t + h]);
+            if fl % 3 == 0 {
+                std::mem::swap(&mut a[0], &mut b[0]);
+            }
+            if fl / 3 == 0 {
+                std::mem::swap(&mut a[1], &mut b[1]);
+            }
+            ViewportCase { rect: [a[0], a[1], b[0], b[1]], ndc: xs([x, y, z]) }
+        })
+        .boxed()
 }
 
 pub fn check_viewport(c: &ViewportCase, obs: &mut Obs) -> Check {
@@ -226,7 +239,7 @@ pub fn check_viewport(c: &ViewportCase, obs: &mut Obs) -> Check {
     let exact = n[0].abs() == 1.0 || n[0] == 0.0;
     for k in 0..2 {
         let is_exact = [n[0], n[1]][k].abs() == 1.0 || [n[0], n[1]][k] == 0.0;
-        let scale = [rf.max(1.0), bf.max(1.0)][k];
+        let scale = [rf.max(lf).max(1.0), bf.max(tf).max(1.0)][k];
         let tol = if is_exact { 0.0 } else { 1e-6 * scale * (1.0 + [n[0], n[1]][k].abs() as f64) };
         ensure!(
             (s[k] as f64 - want[k]).abs() <= tol,
@@ -241,6 +254,9 @@ pub fn check_viewport(c: &ViewportCase, obs: &mut Obs) -> Check {
     obs.class(if exact { "ndc:corner-or-centre(exact)" } else { "ndc:interior" });
     if r == l || b == t {
         obs.class("rect:empty");
+    }
+    if r < l || b < t {
+        obs.class("rect:an axis reversed (mirroring viewport)");
     }
     obs.nontrivial(hash_of(&(c.rect, c.ndc)));
     Ok(())
